@@ -58,7 +58,13 @@ impl<T: RealNumber, M: Matrix<T>> InteriorPointOptimizer<T, M> {
         let gamma = T::from_f64(-0.25).unwrap();
         let mu = T::two();
 
+        let y_scale = y.norm(T::infinity());
         let y = M::from_row_vector(y.sub_scalar(y.mean())).transpose();
+
+        // a constant target has the trivial solution w = 0 (the relative duality gap would be 0/0)
+        if y.norm(T::infinity()) <= T::from_usize(n).unwrap() * T::epsilon() * y_scale {
+            return Ok(M::zeros(p, 1));
+        }
 
         let mut max_ls_iter = 100;
         let mut pitr = 0;
@@ -161,6 +167,13 @@ impl<T: RealNumber, M: Matrix<T>> InteriorPointOptimizer<T, M> {
             let phi = z.dot(&z) + lambda * u.sum() - Self::sumlogneg(&f) / t;
             s = T::one();
             let gdx = grad.dot(&dxu);
+
+            if !phi.is_finite() || !gdx.is_finite() {
+                // the line search below could never accept a step
+                return Err(Failed::fit(
+                    "Interior point optimizer failed: non-finite objective or search direction",
+                ));
+            }
 
             let lsiter = 0;
             while lsiter < max_ls_iter {
